@@ -3,7 +3,7 @@ EXTENDS Wire, Json, SequencesExt
 \* (A) every file of the bounded alphabet x M x P x mode, with the Ref output and the output the Impl model predicts
 CONSTANT CaseLen
 CaseFiles == UNION {[1..k -> Sigma] : k \in 0..CaseLen}
-Cases == {[f |-> ff, m |-> mm, p |-> pp, plain |-> pl, exp |-> Exp(ff, 0, mm), impl |-> Out(ff, mm, pp, pl),
+Cases == {[f |-> ff, m |-> mm, p |-> pp, plain |-> pl, exp |-> ExpMode(ff, mm, pl), impl |-> Out(ff, mm, pp, pl),
            hasd |-> HasD(ff), dot |-> (pl /\ LeadingDot(ff, mm)), toolong |-> TooLong(ff, mm, pp, pl)] :
             ff \in CaseFiles, mm \in Ms, pp \in Ps, pl \in BOOLEAN}
 ASSUME ndJsonSerialize("c01_cases.ndjson", SetToSeq(Cases))
